@@ -84,6 +84,8 @@ def case_gr(ctx, rng):
     kind = str(rng.choice(["bool", "bool", "float", "float", "complex", "complex64", "vector", "cvector", "symtensor", "tensor", "int"]))
     K = int(rng.integers(1, 4))
     snaps, inf, cell = gc.static_system(rng, K=K, frames=1, nmin=max(3, K), nmax=40 if kind.endswith("tensor") else 60, big=not kind.endswith("tensor"))
+    if rng.random() < 0.12:
+        snaps, cell, inf = gc.rescale_units(snaps, cell, inf, float(rng.choice([1e-9, 1e-10, 1e5])))     # another unit of length (R10)
     s = snaps.snapshots[0]
     d, N = inf["d"], inf["N"]
     types = s.particle_type
